@@ -245,16 +245,40 @@ def chacha_setup(rep, u):
     ok128 = any(a == want128 for a in got)
     (rep.proved if ok256 else rep.violated)("R-SPEC", fk, "key256-layout", "256-bit key: words 0-3 sigma, words 4-11 key bytes 0..31 little endian")
     (rep.proved if ok128 else rep.violated)("R-SPEC", fk, "key128-layout", "128-bit key: words 0-3 tau, words 4-7 and 8-11 both key bytes 0..15")
-    # which arm is selected by key size 256/32
-    ok = False
-    for bid in fk.reachable_blocks():
-        c = fk.blocks[bid].cond
-        if c is None:
-            continue
-        vals = {const_val(x) for x, _ in walk(c) if const_val(x) is not None}
-        if 32 in vals or 256 in vals:
-            ok = True
-    (rep.proved if ok else rep.violated)("R-SPEC", fk, "key-size-select", "the 256-bit layout is selected by key size 32 (or 256)")
+    # which arm is selected: key sizes are accepted in bytes (16, 32) and in bits (128, 256); the 128-bit sizes must reach the
+    # tau arm (the 256-bit arm reads key bytes 16..31, which a 16-byte key does not have)
+    ksz = fk.params[2]["n"]
+    sel = {}
+    for v in (16, 32, 128, 256):
+        b = fk.entry
+        for _ in range(50):
+            if b in arms or b is None:
+                break
+            blk = fk.blocks[b]
+            c = blk.cond
+            if c is not None and len(blk.succ) == 2:
+                atoms = [x for x, _ in walk(c) if x.get("k") == "ref" and x.get("n") == ksz]
+                try:
+                    t = r_mpt.eval_expr(c, {id(a): v for a in atoms})
+                except r_mpt.Unknown:
+                    b = None
+                    break
+                b = blk.succ[0] if t else blk.succ[1]
+            else:
+                nx = blk.rsucc()
+                b = nx[0] if len(nx) == 1 else None
+        if b in arms:
+            sel[v] = arms[b]
+    for v, want, nm_ in ((32, want256, "256-bit"), (256, want256, "256-bit"), (16, want128, "128-bit"), (128, want128, "128-bit")):
+        desc = "key size %d selects the %s key layout" % (v, nm_)
+        if v not in sel:
+            rep.undecided("R-SPEC", fk, "key-size-select:%d" % v, desc, "selection not evaluable")
+        elif sel[v] == want:
+            rep.proved("R-SPEC", fk, "key-size-select:%d" % v, desc)
+        else:
+            rep.violated("R-SPEC", fk, "key-size-select:%d" % v, desc, "it reaches the %s arm%s" % (
+                "256-bit" if sel[v] == want256 else "128-bit" if sel[v] == want128 else "other",
+                ": bytes 16..31 of a 16-byte key are read and sigma is used" if sel[v] == want256 else ""))
     for nm, base, idxs in (("chacha_counter_set", "counter", (12, 13)), ("chacha_iv_set", "iv", (14, 15))):
         f = u.fn(nm)
         if f is None:
